@@ -250,8 +250,8 @@ def greater_equal(x1, x2, /):
 
 def hypot(x1, x2, /):
     x1, x2 = _promote_scalars(x1, x2, "hypot")
-    if x1.dtype not in _real_numeric_dtypes or x2.dtype not in _real_numeric_dtypes:
-        raise TypeError("Only real numeric dtypes are allowed in hypot")
+    if x1.dtype not in _real_floating_dtypes or x2.dtype not in _real_floating_dtypes:
+        raise TypeError("Only real floating-point dtypes are allowed in hypot")
     return elemwise(nxp.hypot, x1, x2, dtype=result_type(x1, x2))
 
 
